@@ -22,6 +22,7 @@ from .values import (
     JSBoundMethod,
     to_boolean,
     to_number,
+    to_integer_or_infinity,
     to_string,
     js_typeof,
     normalize_number,
@@ -1853,57 +1854,67 @@ class VM:
 
     def _make_string_method(self, s: str, method: str) -> Any:
         """Create a bound string method."""
+        size = len(s)
+
+        def position(args, i, default):
+            """args[i] as a position: ToIntegerOrInfinity clamped to [0, size];
+            `default` when the argument is missing or undefined."""
+            if i >= len(args) or args[i] is UNDEFINED:
+                return default
+            n = to_integer_or_infinity(args[i])
+            return 0 if n < 0 else size if n > size else n
+
+        def relative(args, i, default):
+            """Like position(), but a negative value counts from the end."""
+            if i >= len(args) or args[i] is UNDEFINED:
+                return default
+            n = to_integer_or_infinity(args[i])
+            return max(size + n, 0) if n < 0 else min(n, size)
 
         def charAt(*args):
-            idx = int(to_number(args[0])) if args else 0
-            if 0 <= idx < len(s):
+            idx = to_integer_or_infinity(args[0]) if args else 0
+            if 0 <= idx < size:
                 return s[idx]
             return ""
 
         def charCodeAt(*args):
-            idx = int(to_number(args[0])) if args else 0
-            if 0 <= idx < len(s):
+            idx = to_integer_or_infinity(args[0]) if args else 0
+            if 0 <= idx < size:
                 return ord(s[idx])
             return float("nan")
 
         def indexOf(*args):
             search = to_string(args[0]) if args else ""
-            start = int(to_number(args[1])) if len(args) > 1 else 0
-            if start < 0:
-                start = 0
-            return s.find(search, start)
+            return s.find(search, position(args, 1, 0))
 
         def lastIndexOf(*args):
             search = to_string(args[0]) if args else ""
-            end = int(to_number(args[1])) if len(args) > 1 else len(s)
-            # Python's rfind with end position
-            return s.rfind(search, 0, end + len(search))
+            if len(search) > size:
+                return -1
+            # the position is converted with ToNumber first: NaN means "from the end"
+            num = to_number(args[1]) if len(args) > 1 else float("nan")
+            pos = size if math.isnan(num) else to_integer_or_infinity(num)
+            start = min(max(pos, 0), size - len(search))
+            return s.rfind(search, 0, start + len(search))
 
         def substring(*args):
-            start = int(to_number(args[0])) if args else 0
-            end = int(to_number(args[1])) if len(args) > 1 else len(s)
-            # Clamp and swap if needed
-            if start < 0:
-                start = 0
-            if end < 0:
-                end = 0
+            start = position(args, 0, 0)
+            end = position(args, 1, size)
             if start > end:
                 start, end = end, start
             return s[start:end]
 
         def slice_fn(*args):
-            start = int(to_number(args[0])) if args else 0
-            end = int(to_number(args[1])) if len(args) > 1 else len(s)
-            # Handle negative indices
-            if start < 0:
-                start = max(0, len(s) + start)
-            if end < 0:
-                end = max(0, len(s) + end)
-            return s[start:end]
+            start = relative(args, 0, 0)
+            end = relative(args, 1, size)
+            return s[start:end] if start < end else ""
 
         def split(*args):
             sep = args[0] if args else UNDEFINED
-            limit = int(to_number(args[1])) if len(args) > 1 else -1
+            # limit is ToUint32 (so -1 means 2**32 - 1); undefined means no limit
+            limit = -1
+            if len(args) > 1 and args[1] is not UNDEFINED:
+                limit = self._to_uint32(args[1])
 
             if sep is UNDEFINED:
                 parts = [s]
@@ -1976,25 +1987,22 @@ class VM:
             return result
 
         def repeat(*args):
-            count = int(to_number(args[0])) if args else 0
-            if count < 0:
+            count = to_integer_or_infinity(args[0]) if args else 0
+            if count < 0 or count == math.inf:
                 raise JSReferenceError("Invalid count value")
             return s * count
 
         def startsWith(*args):
             search = to_string(args[0]) if args else ""
-            pos = int(to_number(args[1])) if len(args) > 1 else 0
-            return s[pos:].startswith(search)
+            return s.startswith(search, position(args, 1, 0))
 
         def endsWith(*args):
             search = to_string(args[0]) if args else ""
-            length = int(to_number(args[1])) if len(args) > 1 else len(s)
-            return s[:length].endswith(search)
+            return s.endswith(search, 0, position(args, 1, size))
 
         def includes(*args):
             search = to_string(args[0]) if args else ""
-            pos = int(to_number(args[1])) if len(args) > 1 else 0
-            return search in s[pos:]
+            return s.find(search, position(args, 1, 0)) != -1
 
         def replace(*args):
             pattern = args[0] if args else ""
